@@ -309,6 +309,53 @@ def oracle_file(rec, W, dat, ref_full, fo, meas):
     return bad
 
 
+EPS_HYP = 1e-3     # LSB: the eps with which the value theorems are read; 0.5 (rounding) + eps + float32 noise < 1
+
+
+def measure_locality(ctx, meas):
+    """The hypothesis of C12_lf_values_within_eps, measured on scipy.signal.sosfiltfilt (float64): two chunks
+    that agree on [p-144, p+144] and differ arbitrarily elsewhere (content, where they start and end, taper)
+    give values at p that differ by at most eps.  Full-scale data (|x| <= 8191 LSB)."""
+    rng = np.random.default_rng(ctx.rng.randrange(2 ** 31))
+    ntr = 1500 if ctx.thorough() else 250
+    taper = np.r_[0, scipy.signal.windows.cosine((TAPER - 1) * 2), 0]
+    worst = {r: 0.0 for r in (TAPER, 72, 36, 24, 12)}
+
+    def outside(kind, n):
+        if kind == 0:
+            return rng.integers(-8191, 8192, size=n).astype(np.float64)
+        if kind == 1:
+            return np.full(n, 8191.0)
+        if kind == 2:
+            return np.full(n, -8191.0)
+        if kind == 3:
+            return 8191.0 * (-1.0) ** np.arange(n)
+        return 8191.0 * np.sign(np.sin(np.arange(n) * rng.uniform(0.01, 0.5)))
+
+    for t in range(ntr):
+        for radius in worst:
+            core = outside(t % 5 if t % 2 else 0, 2 * radius + 1)
+            vals = []
+            for side in range(2):
+                la = [0, 1, TAPER, int(rng.integers(0, 2000))][int(rng.integers(0, 4))]
+                lb = [0, 1, TAPER, int(rng.integers(0, 2000))][int(rng.integers(0, 4))]
+                chunk = np.r_[outside(int(rng.integers(0, 5)), la), core, outside(int(rng.integers(0, 5)), lb)]
+                if side and la >= TAPER and lb >= TAPER and t % 3 == 0:     # tapered ends, as extract_lfp does
+                    chunk[:TAPER] *= taper[:TAPER]
+                    chunk[-TAPER:] *= taper[TAPER:]
+                if chunk.size <= 9:
+                    chunk = np.r_[chunk, np.zeros(10)]
+                vals.append(scipy.signal.sosfiltfilt(SOS, chunk)[la + radius])
+            worst[radius] = max(worst[radius], abs(vals[0] - vals[1]))
+    meas["locality_eps_measured_lsb_radius_144"] = float(worst[TAPER])
+    meas["locality_eps_hypothesis_lsb"] = EPS_HYP
+    meas["locality_trials"] = ntr
+    meas["locality_eps_by_radius_lsb"] = {str(r): float(v) for r, v in worst.items()}
+    if worst[TAPER] > EPS_HYP:
+        ctx.disagree("measured hypothesis of C12_lf_values_within_eps violated: sosfiltfilt output at p changes by %.3g LSB "
+                     "with the data outside [p-144, p+144]" % worst[TAPER], {"kind": "locality", "W": 0})
+
+
 # --------------------------------------------------------------------------
 # encoding (same as coq/C12/Run.v)
 # --------------------------------------------------------------------------
@@ -334,7 +381,8 @@ def meta_ns_of(ap_meta):
 
 def enc_input(rec, W, obs, shs):
     am = obs["ap_meta"]
-    return [rec["ns"], rec_n(rec), rec.get("offset") or 0, W, obs["version"], meta_ns_of(am)] + am["acq"] + am["sns"] + \
+    nominal = 1 if (rec["fs"] == "30000" and rec["ns"] % 12 != 6) else 0      # tie: the float product decides
+    return [rec["ns"], rec_n(rec), rec.get("offset") or 0, W, obs["version"], meta_ns_of(am), nominal] + am["acq"] + am["sns"] + \
         [am["nsaved"], am["fsize"], am["rate"], am["subset_hi"], len(shs)] + shs + obs["shanks"]
 
 
@@ -345,7 +393,7 @@ def enc_output(rec, obs):
     f0 = files[0]
     nrows = f0["nbytes"] // (2 * len(f0["chns"]))
     pos = decode_positions(rec, f0["raw"][:, -1]) if f0["raw"].ndim == 2 and f0["raw"].shape[1] else []
-    out = [1, nrows, len(pos)] + pos + [len(files)]
+    out = [1, meta_ns_of(obs["ap_meta"]), nrows, len(pos)] + pos + [len(files)]
     for fo in files:
         md, rd = fo["meta"], fo["reader"]
         rate = md["rate"]
@@ -547,6 +595,7 @@ def run(ctx):
         logging.disable(logging.NOTSET)
     common.correspondence(ctx, PROP, HEADER, [c["inp"] for c in cases], [c["out"] for c in cases],
                           lambda i: cases[i]["desc"], n_kernel=16)
+    measure_locality(ctx, meas)
     # measurements (not proofs): stated bound 1 LSB; the integer output is a rounding of the float result,
     # so the deviation from the float64 reference is at most 0.5 (rounding) + numerical error: record the
     # part above 0.5 against the remaining 0.5
@@ -556,7 +605,7 @@ def run(ctx):
         meas["interior_definition"] = "LF rows m with %d <= 12 m < ns - %d" % (EDGE, EDGE)
         meas["edge_extent_rows_bound"] = EDGE // RATIO
     ctx.measurements.update(meas)
-    nontrivial = {(tuple(c["inp"][:5]), c["desc"]["seed"]) for c in cases if c["nwin"] > 1 and c["out"] != [0]}
+    nontrivial = {(tuple(c["inp"][:5]), c["desc"]["seed"], c["desc"]["run_index"]) for c in cases if c["nwin"] > 1 and c["out"] != [0]}
     dist["multi_window"] = sum(1 for c in cases if c["nwin"] > 1)
     dist["single_window"] = sum(1 for c in cases if c["nwin"] == 1)
     dist["ns_not_multiple_of_12"] = sum(1 for c in cases if c["desc"]["ns"] % 12)
@@ -570,7 +619,7 @@ def run(ctx):
     dist["compress_true"] = sum(1 for c in cases if c["desc"]["compress"])
     dist["str_path"] = sum(1 for c in cases if c["desc"]["strpath"])
     dist["float_window"] = sum(1 for c in cases if c["desc"]["floatw"])
-    samples = [dict(c["desc"], nwin=c["nwin"], lf_rows=(c["out"][1] if len(c["out"]) > 1 else None))
+    samples = [dict(c["desc"], nwin=c["nwin"], lf_rows=(c["out"][2] if len(c["out"]) > 2 else None))
                for c in cases[:: max(1, len(cases) // 6)]]
     return common.finish(
         ctx, TRUSTED,
